@@ -144,7 +144,7 @@ func (f *flowSpec) Call(x *gea.Exec, st *gea.State, call *ast.CallExpr, env *gea
 	}
 	if callee.Pkg() == p.Types {
 		qn := core.QualName(callee)
-		if fi := p.ByObj[callee]; fi != nil && fi.Decl.Body != nil && !pinnedFuncs[qn] {
+		if fi := p.ByObj[callee]; fi != nil && fi.Decl.Body != nil && (!pinnedFuncs[qn] || f.c.alsoInline[qn]) {
 			return nil, false // a helper introduced after the review: explored in place (inlinePolicy)
 		}
 		if _, named := namedAtoms[qn]; (named && !f.noNamed) || f.quiet[qn] {
@@ -193,9 +193,28 @@ func (f *flowSpec) Call(x *gea.Exec, st *gea.State, call *ast.CallExpr, env *gea
 }
 
 // explore runs the flow spec over a declared function.
+// flowWith is flow with the named reviewed functions followed in place too.
+func (c *Ctx) flowWith(fn *core.Func, alias map[string]string, inline []string, quiet ...string) *gea.Exec {
+	save := c.alsoInline
+	c.alsoInline = map[string]bool{}
+	for _, n := range inline {
+		c.alsoInline[n] = true
+	}
+	defer func() { c.alsoInline = save }()
+	return c.flow(fn, alias, quiet...)
+}
+
 func (c *Ctx) flow(fn *core.Func, alias map[string]string, quiet ...string) *gea.Exec {
 	qs := append([]string(nil), quiet...)
 	sort.Strings(qs)
+	if len(c.alsoInline) > 0 {
+		var in []string
+		for n := range c.alsoInline {
+			in = append(in, n)
+		}
+		sort.Strings(in)
+		qs = append(qs, "|inline:"+strings.Join(in, ","))
+	}
 	as := make([]string, 0, len(alias))
 	for k, v := range alias {
 		as = append(as, k+"="+v)
